@@ -427,11 +427,20 @@ class DAGRunConcurrentManager(DAGRunManagerLike):
         Get the node's predecessors
         """
 
-        predecessors = list(
-            self._get_node_dependencies(dag, node_id)
-            if self._is_switch(node_id) or self._is_head_of_oneof(node_id) or dag.is_recurrent
-            else self.dag.graph.predecessors(node_id),
-        )
+        if self._is_switch(node_id) and not dag.is_recurrent:
+            # The switch node can be resolved as soon as the switch decision is known. It must not wait for the case
+            # nodes which are in the current DAG only because other nodes depend on them.
+            predecessors = [
+                pred_id for pred_id in self.dag.graph.predecessors(node_id)
+                if self.dag.graph.edges[(pred_id, node_id)].get(EdgeField.is_switch)
+            ]
+
+        else:
+            predecessors = list(
+                self._get_node_dependencies(dag, node_id)
+                if self._is_switch(node_id) or self._is_head_of_oneof(node_id) or dag.is_recurrent
+                else self.dag.graph.predecessors(node_id),
+            )
 
         for idx, node_id in enumerate(predecessors):
 
